@@ -167,6 +167,28 @@ def handle (prop : String) (s : S) (i : Nat) (j : Json) : S × List Json :=
                       ("lockedNow", mkInt (due st.obs.lockups k.1 k.2)), ("time", mkInt now),
                       ("txs", Json.arr ((st.txs.filter (fun t => touchedBy t.moves k.1)).map (fun t => Json.str t.kind)).toArray)])]
        | none => [])
+    -- every commit of oracle-pool shares is recorded as a lock-up: an account whose only dealings with a share denom in this block are
+    -- successful joins of an oracle pool has, afterwards, at least as much under unexpired locks as before plus what the joins minted
+    let viols12 := viols12 ++
+      (let now := st.obs.time
+       let due (ls : List Lockup) (a d : String) : Int := (ls.filter (fun l => l.addr == a && l.denom == d && l.unlock > now)).foldl (fun x l => x + l.amount) 0
+       let joins := st.txs.filter (fun t => t.kind == "amm.join" && t.code == 0)
+       let cand := (joins.filterMap fun t =>
+         let pid := ((fInt? t.f "pool").getD 0).toNat
+         match st.obs.ammPools.find? (fun p => p.id == pid && p.oracle) with
+         | some p => some ((fStr? t.f "signer").getD "", p.shareDenom)
+         | none => none).eraseDups
+       let others (a d : String) : Bool :=
+         -- anything else that moved this share denom for this account in the block (exits, leveraged positions, liquidations) or a
+         -- pool whose oracle switch may have been different when the join ran (a governance rewrite in this block's shocks)
+         st.txs.any (fun t => !(t.kind == "amm.join") && t.moves.any (fun m => m.denom == d && (m.src == a || m.dst == a))) ||
+         (st.beginMoves ++ st.endMoves).any (fun m => m.denom == d && (m.src == a || m.dst == a))
+       let minted (a d : String) : Int := joins.foldl (fun x t =>
+         if (fStr? t.f "signer").getD "" == a then x + (t.moves.filter (fun m => m.kind == "mint" && m.denom == d)).foldl (fun y m => y + m.amt) 0 else x) 0
+       match cand.find? (fun k => !others k.1 k.2 && due st.obs.lockups k.1 k.2 < due s.prevLocks k.1 k.2 + minted k.1 k.2) with
+       | some k => [verdictViol i "C12.lock_recorded" (Json.mkObj [("addr", k.1), ("denom", k.2), ("lockedBefore", mkInt (due s.prevLocks k.1 k.2)),
+                      ("mintedByJoins", mkInt (minted k.1 k.2)), ("lockedNow", mkInt (due st.obs.lockups k.1 k.2)), ("time", mkInt now)])]
+       | none => [])
     let viols02 : List Json :=
       (match (ds.filter (fun d => d.startsWith "amm/pool/")).find? (fun d => !sharesB og d) with
        | some d => [verdictViol i "C02.shares_agree" (Json.mkObj [("denom", d), ("poolTotalShares", mkInt (og.poolShares.get d)), ("supply", mkInt (og.supply.get d)),
